@@ -135,13 +135,23 @@ Proof.
   intros c. unfold mix_items. induction n as [|n IH]; intro lo; simpl; [reflexivity|apply IH].
 Qed.
 
+Lemma walk_skip_ins : forall g mid l,
+    walk SkipNonRender mid = [] ->
+    walk SkipNonRender (ins_before g mid l) = walk SkipNonRender l.
+Proof.
+  intros g mid l M. induction l as [|[c|c j] l IH]; simpl; [reflexivity| |exact IH].
+  destruct (Nat.eqb c g); simpl.
+  - rewrite walk_skip_app, M. reflexivity.
+  - rewrite IH. reflexivity.
+Qed.
+
 Lemma walk_skip_mro : forall p mx fuel c,
     walk SkipNonRender (mro_f p mx fuel c) = chain_f p fuel c.
 Proof.
-  intros p mx. induction fuel as [|f IH]; intro c; simpl;
-    rewrite !walk_skip_app, !walk_skip_mix; simpl.
-  - reflexivity.
-  - destruct (Nat.eqb c 0); simpl; [reflexivity|]. rewrite IH. rewrite app_nil_r. reflexivity.
+  intros p mx. induction fuel as [|f IH]; intro c; simpl.
+  - rewrite !walk_skip_app, !walk_skip_mix. reflexivity.
+  - rewrite !walk_skip_app, walk_skip_ins, !walk_skip_mix by apply walk_skip_mix. simpl.
+    destruct (Nat.eqb c 0); simpl; [reflexivity|]. rewrite IH. rewrite app_nil_r. reflexivity.
 Qed.
 
 Lemma existsb_filter_eqb' : forall (h : nat -> bool) c l,
@@ -182,20 +192,31 @@ Qed.
 
 (** the forest of the demo: 1 = A(Args), 2 = B(A)(Args), 3 = Q(Mixin, B)(Args), 4 = R(Q) *)
 Definition F_mix : forest := mkF [0; 0; 1; 2; 3] [None; Some [1%Z]; Some [2%Z]; Some [4%Z]; None].
-Definition mx_before_Q : mixes := mk_mixes [0; 0; 0; 1; 0] [0; 0; 1; 0; 0].
+Definition mx_before_Q : mixes := mk_mixes [0; 0; 0; 1; 0] [0; 0; 1; 0; 0] [] [].
+(** [class Q(B, Mixin, A)], [class R(Mixin', Q, Mixin'', Renderable)] *)
+Definition mx_between : mixes := mk_mixes [0; 0; 0; 0; 1] [] [0; 0; 0; 1; 1] [0; 0; 0; 1; 0].
 
 (** non-vacuity: mix-ins before AND after a render base, in two classes of one chain *)
 Example mro_with_mixins :
   map enc (mro F_mix mx_before_Q 4) = [(4, 0); (3, 0); (3, 1); (2, 0); (1, 0); (0, 0); (2, 1)] /\
   held SkipNonRender F_mix mx_before_Q 4 = [3; 2; 1] /\
   held StopAtNonRender F_mix mx_before_Q 4 = [3] /\
-  held StopAtNonRender F_mix mx_before_Q 2 = [2; 1].
+  held StopAtNonRender F_mix mx_before_Q 2 = [2; 1] /\
+  map enc (mro F_mix mx_between 4) = [(4, 0); (4, 1); (3, 0); (2, 0); (3, 1); (1, 0); (4, 2); (0, 0)] /\
+  held SkipNonRender F_mix mx_between 3 = [3; 2; 1] /\ held StopAtNonRender F_mix mx_between 3 = [3; 2].
 Proof. vm_compute. repeat split; reflexivity. Qed.
+
+Lemma ins_before_nil : forall g l, ins_before g [] l = l.
+Proof.
+  intros g. induction l as [|[c|c j] l IH]; simpl; [reflexivity| |rewrite IH; reflexivity].
+  destruct (Nat.eqb c g); [reflexivity|rewrite IH; reflexivity].
+Qed.
 
 Lemma walk_stop_no_mixes : forall p fuel c,
     walk StopAtNonRender (mro_f p no_mixes fuel c) = chain_f p fuel c.
 Proof.
   intros p. induction fuel as [|f IH]; intro c; simpl; [reflexivity|].
+  rewrite ins_before_nil.
   destruct (Nat.eqb c 0); simpl; [reflexivity|]. rewrite app_nil_r. rewrite IH. reflexivity.
 Qed.
 
@@ -217,7 +238,7 @@ Qed.
 Example mxcheck_example :
   let c held3 acc3 :=
       {| mc_par := [0; 0; 1; 2]; mc_own := [false; true; true; true];
-         mc_before := [0; 0; 0; 1]; mc_after := [0; 0; 1; 0];
+         mc_before := [0; 0; 0; 1]; mc_after := [0; 0; 1; 0]; mc_mid := []; mc_g := [];
          mc_mro := [[(0, 0)]; [(1, 0); (0, 0)]; [(2, 0); (1, 0); (0, 0); (2, 1)];
                     [(3, 0); (3, 1); (2, 0); (1, 0); (0, 0); (2, 1)]];
          mc_held := [[]; [1]; [2; 1]; held3];
